@@ -47,7 +47,10 @@ def idle_views(s, out, where):
 def check_event(s, ev, out):
     op = ev['op'][0]
     idle_views(s, out, f'after {ev["op"]}')
-    if op == 'tick' and s.fsm.active and not s.sched.is_paused():
+    if ev.get('fault'):
+        out.label('db-fault-during-dispatch')
+    if (op == 'tick' and s.fsm.active and not s.sched.is_paused()
+            and not ev.get('fault')):
         released = {(u.jobid, u.target) for u in ev['released']}
         for tag, tgt in ev['releasable_before']:
             if tgt in ev['exec_before'].get(tag, ()):
@@ -103,12 +106,110 @@ def at_end(s, out):
         idle_views(s, out, 'after drain')
 
 
+class _Waiter:
+    '''what the waiters of pl.state.FSM need from their FSM'''
+
+    def __init__(self, s):
+        self.s = s
+
+    def is_pipeline_active(self):
+        return self.s.fsm.active
+
+    def waiting_on_crew(self):
+        return True
+
+    def waiting_on_doing(self):
+        return True
+
+    def waiting_on_todo(self):
+        return True
+
+
+def exec_waiters(case):
+    '''the real poll loops of the "queue empty" / "nothing executing" /
+    "crew idle" waiters (pl.state.FSM.is_todo_done / is_doing_done /
+    is_crew_done), each on its own single-stepped thread started at a
+    generated point of the history, must return once the pipeline has
+    quiesced'''
+    import dawgie.pl.state as state
+
+    from .. import fsmrig
+
+    started = []
+    real_time = state.time
+    state.time = fsmrig._Time(real_time)
+
+    def on_event(s, ev, out):
+        check_event(s, ev, out)
+        n = len(s.log)
+        for at, kind in case['waiters']:
+            if at == n:
+                fn = {'todo': state.FSM.is_todo_done,
+                      'doing': state.FSM.is_doing_done,
+                      'crew': state.FSM.is_crew_done}[kind]
+                step = fsmrig.Step(fn, (_Waiter(s),), {}, None)
+                step.kind = kind
+                step.thread = fsmrig.PollerThread(step)
+                step.thread.wait()
+                started.append(step)
+                if s.sched.que:
+                    out.nontrivial = True
+                    out.label('waiter-started-while-work-queued')
+        for step in started:
+            step.thread.step_once()
+
+    def end(s, out):
+        at_end(s, out)
+        if out.failures or not s.idle():
+            return
+        for step in started:
+            for _ in range(3):
+                if step.thread.step_once():
+                    break
+            if not step.thread.done.is_set():
+                out.fail(
+                    f'waiter/never-satisfied@{step.kind}',
+                    f'pipeline quiescent (queue {[j.tag for j in s.sched.que]}'
+                    f', busy {list(s.farm._busy)}, doing '
+                    f'{s.sched.view_doing()}) but the "{step.kind}" waiter '
+                    'started earlier is still polling',
+                )
+            elif step.thread.exc is not None:
+                out.fail(f'waiter/raised@{step.kind}', repr(step.thread.exc))
+
+    try:
+        out = sim.run_history(case, on_event, end, pid=ID)
+    finally:
+        for step in started:
+            step.thread.stop()
+        state.time = real_time
+    return out
+
+
 def execute(case):
     out = sim.run_history(case, check_event, at_end, pid=ID)
     if not case['targets']:
         out.nontrivial = True
         out.label('empty-target-list')
     return out
+
+
+def _waiter_cases():
+    from hypothesis import strategies as st
+
+    @st.composite
+    def build(draw):
+        case = draw(sim.histories(
+            weights={'req': 3},
+            spec_kw={'kinds': ('task', 'task', 'analysis', 'regress')},
+            empty_targets=False))
+        case['waiters'] = draw(st.lists(
+            st.tuples(st.integers(1, 12),
+                      st.sampled_from(['todo', 'todo', 'doing', 'crew'])),
+            min_size=1, max_size=3))
+        return case
+
+    return build()
 
 
 def parts(tier):
@@ -122,6 +223,19 @@ def parts(tier):
                                    'regress')},
             ),
             cases=1600 if q else 50000, batch=200,
+        ),
+        core.Part(
+            'faults', execute,
+            strategy=sim.histories(
+                weights={'req': 3, 'dbfault': 3},
+                spec_kw={'kinds': ('task', 'task', 'analysis', 'regress')},
+            ),
+            cases=400 if q else 12500, batch=200,
+        ),
+        core.Part(
+            'waiters', exec_waiters,
+            strategy=_waiter_cases(),
+            cases=400 if q else 12500, batch=200,
         ),
         core.Part(
             'timers', execute,
